@@ -69,7 +69,7 @@ let run_case (ops : string list) : string list =
             last := res_str (req (OSet (cnum 1, skey 3, JNum (str_of_string (string_of_int i)), false))).o_res "ack"
           done;
           !last
-      | "settle" -> disk := apply_all !disk !pending; pending := []; "ok"
+      | "settle" -> "ok"      (* a pause is no guarantee that the writer has caught up (fsync under load): every prefix stays possible *)
       | "stop" ->
           let (s1, acts) = shutdown_actions (List.hd !cands) in
           disk := apply_all !disk (!pending @ acts); pending := [];
